@@ -485,7 +485,8 @@ func runC20(c *Ctx) error {
 			return config.Store{Router: config.Router{Address: id.Store(), Listen: []string{fmt.Sprintf("tcp://127.0.0.1:%d", port)}, Connect: connect}, System: config.System{DisableTun: true}}
 		}
 		stA := mk(ids[0], portA, nil)
-		stB := mk(ids[1], freePort(), []string{fmt.Sprintf("tcp://127.0.0.1:%d", portF)})
+		portB := freePort()
+		stB := mk(ids[1], portB, []string{fmt.Sprintf("tcp://127.0.0.1:%d", portF)})
 		cfgA, errA := stA.Parse()
 		cfgB, errB := stB.Parse()
 		if errA != nil || errB != nil {
@@ -553,8 +554,32 @@ func runC20(c *Ctx) error {
 		for t0 := time.Now(); !B.Peering().Manager().IsDone() && time.Since(t0) < 20*time.Second; {
 			time.Sleep(5 * time.Millisecond)
 		}
-		time.Sleep(time.Duration(50+c.Rng.IntN(250)) * time.Millisecond)
+		// Peering.Stop closes its listeners and then the links it knows: once B's listen port refuses
+		// connections the listeners are gone and the links follow at once
+		for t0 := time.Now(); time.Since(t0) < 10*time.Second; time.Sleep(10 * time.Millisecond) {
+			pc, err := net.DialTimeout("tcp", fmt.Sprintf("127.0.0.1:%d", portB), 200*time.Millisecond)
+			if err != nil {
+				break
+			}
+			_ = pc.Close()
+		}
+		time.Sleep(time.Duration(100+c.Rng.IntN(200)) * time.Millisecond)
 		close(release)
+		var maxB atomic.Int32
+		pollStop := make(chan struct{})
+		go func() {
+			for {
+				select {
+				case <-pollStop:
+					return
+				default:
+				}
+				if n := int32(len(B.Peering().GetLinks())); n > maxB.Load() {
+					maxB.Store(n)
+				}
+				time.Sleep(2 * time.Millisecond)
+			}
+		}()
 		okStop, returned := false, false
 		select {
 		case okStop = <-stopped:
@@ -572,6 +597,8 @@ func runC20(c *Ctx) error {
 				break
 			}
 		}
+		close(pollStop)
+		everB = everB || maxB.Load() > 0
 		c.Eval()
 		c.Count("instance-cycle:stop-during-link-setup")
 		rep2 := map[string]any{"cfg": "stop-during-link-setup", "dialled_before_stop": dialled, "stop_returned": returned, "stop_ok": okStop, "links_at_stopped_router": linksB, "running_router_still_linked": linkAtA, "link_seen_at_running_router": everA, "link_seen_at_stopped_router": everB}
